@@ -6,7 +6,7 @@ from vlib import Broken
 import zonechain as zc
 
 C10_PROBLEMS = {"reorged-node-differs-from-fresh-node", "reorged-node-canonical-index-differs", "fresh-node-rejects-canonical-block",
-                "follower-state-differs", "follower-sethead-differs"}
+                "follower-state-differs", "follower-sethead-differs", "address-index-differs-from-utxo-set"}
 
 
 def run(ctx):
@@ -19,7 +19,7 @@ def run(ctx):
         cov.update(states=d.distinct, transitions=d.generated, tlc_depth=d.depth)
         shp, total_shapes, _ = zc.shapes(ctx, 12 if quick else 120, ctx.seed)
         cov.update(tlc_tree_shapes=total_shapes, shapes_replayed=len(shp))
-        validated, events, fresh, sethead_events, samples = 0, 0, 0, 0, []
+        validated, events, fresh, sethead_events, samples, index_checks, chained = 0, 0, 0, 0, [], 0, 0
         # long traces make trace validation quadratic: at most 12 TLC shapes (about 80 blocks) per driver run
         chunks = [shp[i:i + 12] for i in range(0, len(shp), 12)]
         plans = [("shapes%d" % i, c, 0) for i, c in enumerate(chunks)] + [("rand%d" % i, None, 50 if quick else 120) for i in range(1 if quick else 5)]
@@ -27,9 +27,11 @@ def run(ctx):
             sub = dbdir / tag; sub.mkdir()
             seed = ctx.seed * 100 + i
             tr, info = zc.run_chaindrv(ctx, drv, "c10-" + tag, seed, steps, sub, shapes_list=shapes_list,
-                                       extra=["-fresh", 12 if quick else 20, "-trimdepth", 4, "-lockups"] +
+                                       extra=["-fresh", 12 if quick else 20, "-trimdepth", 4, "-lockups"] + (["-chained", 7] if shapes_list is None else []) +
                                              (["-followers", "leveldb"] if (not quick and i % 2 == 1) else []) +
-                                             (["-index"] if (not quick and i % 3 == 2) else []))
+                                             (["-index"] if (shapes_list is None or i % 3 == 2) else []))
+            index_checks += info.get("index_checks", 0)
+            chained += info.get("chained_blocks", 0)
             for pr in info.get("problems") or []:
                 if pr["kind"] in C10_PROBLEMS:
                     vlib.report(ctx, {"kind": pr["kind"]}, {"seed": seed, "plan": tag, "problem": pr, "trace": str(tr)})
@@ -51,16 +53,23 @@ def run(ctx):
             shutil.rmtree(sub, ignore_errors=True)
         if fresh == 0 or sethead_events < 5:
             raise Broken("driver performed no fresh-node comparisons / too few head switches")
+        if chained == 0 and not ctx.violations:
+            raise Broken("no peer-style block with a same-block chained Qi spend was realised")
+        if index_checks < 20:
+            raise Broken("address index compared only %d times" % index_checks)
         cov.update(traces_validated_against_impl=validated, impl_trace_events=events, head_switch_events=sethead_events,
-                   fresh_node_comparisons=fresh, samples=samples or [{"note": "no head switch sampled"}],
+                   fresh_node_comparisons=fresh, address_index_comparisons=index_checks, chained_spend_blocks_reorged=chained, samples=samples or [{"note": "no head switch sampled"}],
                    rule="every block-tree / head-switch shape of the bounded model (TLC) and random fork-heavy runs executed on a real node with "
                         "random Qi/Quai/conversion content; after every head switch the full database image (ut, cl, canonical index, heads) "
-                        "must equal ZoneChain.tla's replay of the winning branch and, periodically, the image of a fresh node fed only the winner")
+                        "must equal ZoneChain.tla's replay of the winning branch and, periodically, the image of a fresh node fed only the winner; with "
+                        "IndexAddressUtxos on, the per-address index ('auwh' records) must list exactly the unspent outputs of each address as scanned from 'ut'")
     finally:
         shutil.rmtree(dbdir, ignore_errors=True)
     zc.check_aborted(ctx)
     vlib.write_evidence(ctx, "model_checking", cov, [
-        "blocks are produced by the node's own worker (adversarial block contents are covered by C01/C07)",
+        "blocks are produced by the node's own worker, plus peer-style blocks whose second Qi transaction spends an output of the first (the worker never "
+        "builds those; harness/chain/craft.go appends the transaction and recomputes the commitments with the node's own Process); other adversarial "
+        "block contents are covered by C01/C07",
         "single-zone topology; reorg depth bounded by the scenario generator (<= ~6 blocks)",
     ])
 
